@@ -43,13 +43,13 @@ type vfC08Req struct {
 }
 
 type vfC08World struct {
-	servers  []*vfLoaded
-	handlers []func(*fasthttp.RequestCtx)
+	servers   []*vfLoaded
+	handlers  []func(*fasthttp.RequestCtx)
 	probeSlot []uint64
-	slots    []uint64
-	sigs     []string
-	sigBytes [][]byte
-	addrs    []string
+	slots     []uint64
+	sigs      []string
+	sigBytes  [][]byte
+	addrs     []string
 }
 
 var (
@@ -134,13 +134,16 @@ type vfBlockStream struct {
 	out []*old_faithful_grpc.BlockResponse
 }
 
-func (s *vfBlockStream) Send(r *old_faithful_grpc.BlockResponse) error { s.out = append(s.out, r); return nil }
-func (s *vfBlockStream) SetHeader(metadata.MD) error                   { return nil }
-func (s *vfBlockStream) SendHeader(metadata.MD) error                  { return nil }
-func (s *vfBlockStream) SetTrailer(metadata.MD)                        {}
-func (s *vfBlockStream) Context() context.Context                      { return s.ctx }
-func (s *vfBlockStream) SendMsg(m any) error                           { return nil }
-func (s *vfBlockStream) RecvMsg(m any) error                           { return nil }
+func (s *vfBlockStream) Send(r *old_faithful_grpc.BlockResponse) error {
+	s.out = append(s.out, r)
+	return nil
+}
+func (s *vfBlockStream) SetHeader(metadata.MD) error  { return nil }
+func (s *vfBlockStream) SendHeader(metadata.MD) error { return nil }
+func (s *vfBlockStream) SetTrailer(metadata.MD)       {}
+func (s *vfBlockStream) Context() context.Context     { return s.ctx }
+func (s *vfBlockStream) SendMsg(m any) error          { return nil }
+func (s *vfBlockStream) RecvMsg(m any) error          { return nil }
 
 type vfTxStream struct {
 	ctx context.Context
